@@ -39,13 +39,14 @@ type Item struct {
 	TypeIdx int // index into the type list for cql items
 	Bytes   []byte
 	Fields  [][2]int // (offset, width) of every read the library's own decoder performs on the valid encoding
+	Pairs   int      // two-field mutations of [int] fields: 0 none, 1 fields read one after the other, 2 all pairs
 }
 
 // Trace prints every entry point before it is called (debug aid).
 var Trace bool
 
 var corpus []Item
-var corpusPath = filepath.Join(vlib.Root, ".build", "corpus-"+filepath.Base(os.Args[0])+".gob")
+var corpusPath = filepath.Join(filepath.Dir(os.Args[0]), "corpus-"+filepath.Base(os.Args[0])+".gob") // next to the binary: one per build directory
 
 var int4 = []uint32{0xFFFFFFFF, 0xFFFFFFFE, 0x80000000, 0, 1, 0x7F, 0xFF, 0x7FFF, 0xFFFF, 0x00100001}
 var int2 = []uint16{0xFFFF, 0xFFFE, 0x8000, 0, 1, 0x7FFF}
@@ -68,6 +69,7 @@ var flipBits = []uint{0, 1, 2, 3, 7}
 // measure allocation amplification, DESIGN section 6).
 
 var f4 = []uint32{0xFFFFFFFF, 0xFFFFFFFE, 0x80000000, 0, 1, 0x7F, 0xFF, 0x7FFF, 0xFFFF, 0x00100001}
+var p4 = []uint32{0xFFFF, 0x10000, 0xB505} // pair values: 2^16-1, 2^16, ceil(sqrt(2^31))
 var f2 = []uint16{0xFFFF, 0xFFFE, 0x8000, 0, 1, 0x7FFF, 0x00FF, 0x0100}
 var f1 = []byte{0, 1, 2, 0x7F, 0x80, 0xFF}
 var f8 = []uint64{0, 0xFFFFFFFFFFFFFFFF, 0x8000000000000000, 0x7FFFFFFFFFFFFFFF}
@@ -142,6 +144,29 @@ func fieldMutators(it Item) []fmut {
 						b[off+w/2] = 0xFF
 					}
 					return b, fmt.Sprintf("payload of %d bytes at %d altered (%d)", w, off, k)
+				}})
+			}
+		}
+	}
+	// two [int] fields at once (counts whose PRODUCT or SUM matters: rows x columns, length + offset)
+	if it.Pairs > 0 {
+		var ints []int
+		for i, f := range it.Fields {
+			if f[1] == 4 {
+				ints = append(ints, i)
+			}
+		}
+		for x := 0; x < len(ints); x++ {
+			for y := x + 1; y < len(ints); y++ {
+				if it.Pairs == 1 && ints[y] != ints[x]+1 {
+					continue
+				}
+				o1, o2 := it.Fields[ints[x]][0], it.Fields[ints[y]][0]
+				ms = append(ms, fmut{len(p4) * len(p4), func(b []byte, k int) ([]byte, string) {
+					v1, v2 := p4[k/len(p4)], p4[k%len(p4)]
+					binary.BigEndian.PutUint32(b[o1:], v1)
+					binary.BigEndian.PutUint32(b[o2:], v2)
+					return b, fmt.Sprintf("[int] fields at %d and %d := %#x, %#x", o1, o2, v1, v2)
 				}})
 			}
 		}
@@ -343,8 +368,8 @@ func BuildCorpus(thorough bool) int {
 						return
 					}
 				default:
-					if kindSeen[kind] >= 1 {
-						return
+					if kindSeen[kind] >= 1 && !((kind == "RESULT.Rows" || kind == "RESULT.Prepared") && len(fcheck.PathClass(cs.Name)) == 0) {
+						return // every Rows and Prepared variant stays (with and without metadata ...): their counts interact
 					}
 					kindSeen[kind]++
 				}
@@ -367,6 +392,10 @@ func BuildCorpus(thorough bool) int {
 				item := Item{Kind: "frame", Name: cs.Name, Version: uint8(v), Comp: string(comp), Bytes: append([]byte{}, buf.Bytes()...)}
 				if comp == primitive.CompressionNone {
 					item.Fields = traceFields(item.Bytes)
+					item.Pairs = 1
+					if thorough {
+						item.Pairs = 2
+					}
 				}
 				add(item)
 			}
